@@ -328,6 +328,7 @@ func (c *ctx) inputFor(prog []dop, fields []int32, depth int) []byte {
 // streamD: random programs over the low-level Decoder API on matching, mismatching and malformed input.
 func (c *ctx) streamD() error {
 	c.focusedReaders(c.n / 3)
+	c.focusedElements(200)
 	c.focusedErrors(c.n / 3)
 	if !haveOverlay {
 		c.rep.Notes = append(c.rep.Notes, "stream D skipped: built without the overlay exports")
@@ -563,6 +564,90 @@ func (c *ctx) focusedReaders(n int) {
 
 // focusedErrors (C19): a known field at nesting depth 0..2 with a wrong wire type or a truncated
 // value: the error must be non-nil and name THAT field's number.
+// focusedElements: the low-level API used the way hand-written code may use it — the callback of
+// RepeatedMessage / Message reads the element's fields with typed readers DIRECTLY (no Loop inside).
+// The input is a canonical encoding (ascending fields) of `repeated Point{sint32 x=1; uint64 y=2;
+// string s=3}` built with the reference wire package, so straight-line readers see every field; the
+// decoded elements must be the points that were encoded. Independent of the Lean model.
+func (c *ctx) focusedElements(n int) {
+	r := c.r
+	type pt struct {
+		x int32
+		y uint64
+		s string
+	}
+	for i := 0; i < n; i++ {
+		field := int32(1 + r.Intn(30))
+		cnt := 1 + r.Intn(4)
+		var pts []pt
+		var in []byte
+		for j := 0; j < cnt; j++ {
+			p := pt{x: int32(gen.Bits(r, "sint32")), y: gen.Bits(r, "uint64"), s: string(gen.Str(r, r.Intn(6)))}
+			if r.Intn(4) == 0 {
+				p.x = 0
+			}
+			if r.Intn(4) == 0 {
+				p.y = 0
+			}
+			pts = append(pts, p)
+			var e []byte
+			if p.x != 0 {
+				e = refwire.AppendVarint(refwire.AppendTag(e, 1, refwire.VarintType), refwire.EncodeZigZag(int64(p.x))&0xffffffff)
+			}
+			if p.y != 0 {
+				e = refwire.AppendVarint(refwire.AppendTag(e, 2, refwire.VarintType), p.y)
+			}
+			if p.s != "" {
+				e = refwire.AppendString(refwire.AppendTag(e, 3, refwire.BytesType), p.s)
+			}
+			in = refwire.AppendBytes(refwire.AppendTag(in, refwire.Number(field), refwire.BytesType), e)
+		}
+		useMessage := cnt == 1 && r.Intn(2) == 0
+		c.rep.Evaluations++
+		var got []pt
+		var errText string
+		p, to := guarded(10e9, func() {
+			dec := picobuf.NewDecoder(in)
+			read := func(cc *picobuf.Decoder) {
+				var q pt
+				cc.Sint32(1, &q.x)
+				cc.Uint64(2, &q.y)
+				cc.String(3, &q.s)
+				got = append(got, q)
+			}
+			dec.Loop(func(cc *picobuf.Decoder) {
+				if useMessage {
+					cc.Message(picobuf.FieldNumber(field), read)
+				} else {
+					cc.RepeatedMessage(picobuf.FieldNumber(field), read)
+				}
+			})
+			if err := dec.Err(); err != nil {
+				errText = err.Error()
+			}
+		})
+		bad := p != "" || to || errText != "" || len(got) < len(pts)
+		if !bad && !useMessage {
+			for j := range pts {
+				if got[j] != pts[j] {
+					bad = true
+				}
+			}
+		}
+		if !bad && useMessage {
+			// Message runs its callback through Loop: the last invocation holds the element
+			bad = got[len(got)-1] != pts[0] && !(len(got) >= 1 && got[0] == pts[0])
+		}
+		if bad {
+			c.disagree(Disagreement{Kind: "real!=ref", Check: "reader-matches-reference",
+				Case: map[string]string{"program": map[bool]string{true: "Message", false: "RepeatedMessage"}[useMessage] + fmt.Sprintf("(%d){ Sint32(1,&x); Uint64(2,&y); String(3,&s) }  -- no Loop inside the callback", field), "input": hexs(in), "want": fmt.Sprint(pts)},
+				Got:  map[string]string{"got": fmt.Sprint(got), "err": errText, "panic": p, "timeout": fmt.Sprint(to)}})
+			return
+		}
+	}
+	c.count(fmt.Sprintf("focused_element_cases=%d", n))
+}
+
 func (c *ctx) focusedErrors(n int) {
 	r := c.r
 	for i := 0; i < n; i++ {
